@@ -52,9 +52,9 @@ def BOUNDS(tier):
 
 
 def polesets(tier):
-    p = [[], [0], [0, 2, 4], [2]]
+    p = [[], [0], [0, 2, 4], [2], [2, 0]]        # [2, 0]: the monopole is not the first requested multipole
     if tier != 'quick':
-        p += [[4, 0], [1, 3], [0, 2, 4, 6]]
+        p += [[4, 0], [4, 2, 0], [1, 3], [0, 2, 4, 6]]
     return p
 
 
@@ -99,6 +99,8 @@ def kedges(n, unit, fam, start, end):
 
 def cases(tier, seed):
     q = tier == 'quick'
+    # production-size mesh: more than 2^24 modes per bin, counts must still be exact integers (closed-form reference)
+    yield dict(fn='bigcount', n=320 if q else 448, tier=tier)
     ns = range(2, 10) if q else range(1, 13)
     Ls = ('n', 1000) if q else ('n', 1000, 1.0)
     mubs = (1, 2, 5) if q else (1, 2, 3, 5, 10)
@@ -375,8 +377,44 @@ def check_output(ctx, ref, ref_args, out, poles, how, eps, slack=0):
                 ctx.bad(f'{fn}:{name}', text, how)
 
 
+def run_bigcount(case):
+    """n1d = 320/448: two k shells, the outer one holding > 2^24 modes; N_mode must be the exact integer count for
+    every thread count.  Reference: integer arithmetic on the half mesh (edges chosen at half-integer |k|^2 / mu^2 values far
+    from any mode, so no edge convention enters)."""
+    ps = _K['ps']
+    n = case['n']
+    L = float(n)
+    kf = 2 * np.pi / L
+    fr = np.fft.fftfreq(n, 1.0 / n).astype(np.int64)
+    kz = np.arange(n // 2 + 1, dtype=np.int64)
+    r2 = (fr[:, None, None] ** 2 + fr[None, :, None] ** 2 + kz[None, None, :] ** 2)
+    mult = np.where((kz == 0) | ((n % 2 == 0) & (kz == n // 2)), 1, 2)[None, None, :] * np.ones_like(r2)
+    e2 = np.array([0.0, (0.35 * n) ** 2 + 0.5, (0.9 * n) ** 2 + 0.5])       # squared edges in mode units
+    ke = np.sqrt(e2) * kf
+    mu_edges = np.array([0.0, 1.0])
+    exp = np.zeros((2, 1), dtype=np.int64)
+    for b in range(2):
+        inb = (r2 > e2[b]) & (r2 <= e2[b + 1]) if b else (r2 >= 0) & (r2 <= e2[1])
+        exp[b, 0] = int((mult * inb).sum())
+    W = np.ones((n, n, n // 2 + 1), dtype=np.float32)
+    probs = []
+    ev = 0
+    for nt in (1, 3, 16):
+        out = ps.bin_kmu(n, L, ke, mu_edges, W, poles=np.array([0], dtype=np.int64), nthread=nt)
+        ev += 1
+        counts = np.asarray(out[1])
+        if counts.dtype.kind not in 'iu' or not np.array_equal(counts, exp):
+            probs.append(dict(sig='kmu:count:large-mesh', msg=f'n1d={n} nthread={nt}: N_mode {counts.tolist()} (dtype {counts.dtype}) but the mesh holds exactly {exp.tolist()} modes in these bins'))
+        if not np.array_equal(np.asarray(out[3]), exp.sum(axis=1)):
+            probs.append(dict(sig='kmu:counts_poles:large-mesh', msg=f'n1d={n} nthread={nt}: N_mode_poles {np.asarray(out[3]).tolist()} expected {exp.sum(axis=1).tolist()}'))
+    return dict(problems=probs[:2], evals=ev, nt=[('bigcount', n, int(exp.max()))], extra=dict(bigcount_modes=int(exp.sum())),
+                max=dict(largest_bin_count=int(exp.max())))
+
+
 def run(case):
     from vf import c08_ref, c08_twin
+    if case['fn'] == 'bigcount':
+        return run_bigcount(case)
     ps = _K['ps']
     fn, n = case['fn'], case['n']
     L = box(n, case['L'])
